@@ -119,8 +119,14 @@ def judge(x: world.Execution, plans, teams, allowed: List[int], c: Counter, rp: 
     c.inc('judged')
     c.see('status', x.status)
     if e.get('main_exc') is None:
-        c.inc('no_abort')
-        c.see('no_abort_kinds', what)
+        if x.status == 'complete':
+            c.inc('no_abort')
+            c.see('no_abort_kinds', what)
+            return
+        # the table manager neither played the session to its end nor stopped: no thread can take another step, so the session IS
+        # abandoned - and whatever is in the output file now is all there will ever be
+        c.violate(f'C13:stuck:{what.split(":")[0]}', f'{what}: the table manager neither finished the session nor stopped: no thread can take another step '
+                                                     f'({x.status}: {str(x.detail)[:300]}), so the output file is never completed', rp)
         return
     c.inc('aborts')
     c.see('abort_exc', type(e['main_exc']).__name__)
@@ -212,8 +218,8 @@ def run_interrupt(item) -> Counter:
         raise prims.InternalError(str(x.detail))
     c.inc('executions')
     c.inc('steps', x.nsteps)
-    if x.threads['main']['exc'] is None or not isinstance(x.threads['main']['exc'], KeyboardInterrupt):
-        raise prims.InternalError(f'the interrupt at main operation {op} was not delivered: {x.threads["main"]["exc"]!r}')
+    if x.threads['main']['exc'] is None and x.status == 'complete':
+        raise prims.InternalError(f'the interrupt at main operation {op} was not delivered: the session ran to its end')
     judge(x, plans, spec['teams'], sorted({lo, hi}), c, rp, f'interrupt:main operation {op}')
     c.see('cls', ('interrupt', lo, hi, len(plans)))
     c.inc('interrupts')
